@@ -26,6 +26,11 @@ CHECKS = {
             "All schemas with up to N type constructors (quick 3, thorough 4) over bool/i64/String, Option, Vec, tuples, maps, structs (with and without deny_unknown_fields) and an enum with unit/newtype/tuple/struct variants, realised by a DeserializeSeed that issues exactly the deserialize_* calls of a derived impl; for each schema all canonical documents (every variant in every notation) and all single-edit mutants (replace by another kind, insert/delete/swap elements, rename/duplicate keys, bare variant names, tag changes), double edits for schemas up to a size bound, block and flow. A reference interpreter (definite only where the statement is) predicts value / error / unspecified; the real result must equal the value, be an error where the reference says so, and in unspecified cases no scalar token may be delivered at a position other than its own.",
             "Trusted: the reference interpreter (Unspecified wherever the statement is silent: quoted scalars for non-string targets, null for containers, tagged mappings, null struct keys, bare payload variants' own value); serde's derived-impl behaviour as mirrored by the seed.",
             "DESIGN.md §3 C05"),
+    "C07": ("model_checking",
+            "bounded-exhaustive threshold check (limit = independently counted usage must pass, usage-1 must fail with that breach kind) on every small document, plus explicit-state search (stateright BFS) over document histories for per-document enforcement",
+            "For every collection-rooted tree of the C02 alphabet up to the node bound (quick 4, thorough 5 nodes; plus canonical-anchor trees with 3+ anchors) and the entry points from_str / from_reader / from_multiple: an independent counter over raw saphyr-parser events plus replayed events predicts events, nodes, depth, aliases, distinct anchors, scalar bytes, merge keys and documents; the BudgetReport handed to the callback and the report of check_yaml_budget must equal it field by field; for each of the 8 counters the real library must accept with limit = usage and must fail with Error::Budget of the matching kind with limit = usage-1; four alias/anchor-ratio settings around the boundary. Per-document enforcement: stateright BFS over all streams of up to N documents (quick 3, thorough 4) of 8 kinds (anchors, nesting, long scalar, merge, late type error, null...) read through read_with_options under 15 budgets derived from the maximum single-document usage and one less: the verdict list must equal the concatenation of the verdicts each document gets on its own (run twice, state counts must agree; coverage 'sometimes' properties must be discovered).",
+            "Trusted: saphyr-parser events; the reference counter (120 lines; convention: every raw event counts, including stream and document markers; an alias replays the fully expanded anchored node at its depth). Thresholds only for documents that deserialize into the untyped tree with unlimited budget.",
+            "DESIGN.md §3 C07"),
     "C12": ("model_checking",
             "bounded-exhaustive enumeration of scalar values x positions x serializer option vectors, identity round-trip oracle on the real serializer and deserializer",
             "All strings up to the length bound over a 52-symbol adversarial alphabet plus 150 look-alike words, in 12 positions (root, sequence item, nested item, map value/key, flow item/value/key, struct field, newtype/tuple variant payload, map inside sequence) under every combination of quote_all, yaml_12, prefer_block_scalars, compact_list_indent, tagged_enums x indent steps x two fold widths; all integer boundaries of every width; a complete f32 sub-lattice (thorough: all 2^32 patterns) and an f64 boundary lattice; chars, unit, options, byte arrays. Each value is serialized by the real serializer, must scan as exactly one document in saphyr-parser and must read back as the identical value; emitted floats must match the YAML float grammar.",
